@@ -291,6 +291,9 @@ pub enum Hdr {
     Old { tag: u8, lt: u8, len: PacketLength },
 }
 
+pub open spec fn hdr_tag(h: Hdr) -> u8 { match h { Hdr::New { tag, len } => tag, Hdr::Old { tag, lt, len } => tag } }
+pub open spec fn hdr_len(h: Hdr) -> PacketLength { match h { Hdr::New { tag, len } => len, Hdr::Old { tag, lt, len } => len } }
+
 /// the minimal legacy length-type for a length
 pub open spec fn old_canon_lt(l: PacketLength) -> u8 {
     match l {
